@@ -207,7 +207,7 @@ def lifecycle(run):
         t1 = copy.deepcopy(small)
         for e in t1:
             if e['op'] == 'Reload' and not e['raised']:
-                e['verts'][1]['fixed'] = True                 # a flag "survives" the file
+                e['verts'][1]['fixed'] = True                 # a flag APPEARS in the file round trip (the graph had no fixed vertex)
                 wanted.append((t1, (e['sid'], e['seq'], 'reload-effect')))
                 break
         t2 = copy.deepcopy(small)
